@@ -452,9 +452,10 @@ func hookABStr(d *B, s *A, n string)           {}
 	sb.WriteString(header(t))
 	sb.WriteString("type Convergen interface {\n")
 	shared := t.pick(hooks...)
+	sameShape := t.ch(0.5) // all methods over the same operand types: only the error result varies
 	for j := 0; j < 2+t.r.Intn(3); j++ {
 		h := shared
-		if t.ch(0.3) {
+		if t.ch(0.3) && !sameShape {
 			h = t.pick(hooks...)
 		}
 		fmt.Fprintf(&sb, "\t// :%s %s\n", t.pick("preprocess", "postprocess"), h)
@@ -464,6 +465,12 @@ func hookABStr(d *B, s *A, n string)           {}
 		src := t.pick("*A", "A", "*A", "*C")
 		dst := t.pick("*B", "B", "*B")
 		extra := t.pick("", "", ", n int", ", n string")
+		if sameShape {
+			src, dst, extra = "*A", "*B", ""
+			if shared == "hookABArgs" {
+				extra = ", n int"
+			}
+		}
 		ret := t.pick(dst, "("+dst+", error)")
 		fmt.Fprintf(&sb, "\t%s%d(s %s%s) %s\n", t.pick("Conv", "Must", "A", "Z"), j, src, extra, strings.Replace(ret, "(", "(d ", 1))
 	}
@@ -700,7 +707,7 @@ func famImports(t *tgen) {
 	var imps []string
 	alias := t.pick("api", "m2", "other")
 	imps = append(imps, fmt.Sprintf("%s \"exp/%s/api/%s\"", alias, t.name, t.name))
-	blank := t.ch(0.5)
+	blank := t.ch(0.6)
 	if blank {
 		imps = append(imps, fmt.Sprintf("_ \"exp/%s/hooks/conv\"", t.name), fmt.Sprintf("_ \"exp/%s/plugins/conv\"", t.name))
 		t.feat("blank-imports-with-equal-base-name")
@@ -737,7 +744,8 @@ func famImports(t *tgen) {
 	t.files[t.name+"/api/"+t.name+"/m.go"] = same
 	if blank {
 		t.files[t.name+"/hooks/conv/c.go"] = hooks
-		t.files[t.name+"/plugins/conv/c.go"] = hooks
+		// same base name, different content: which of the two gets the name matters
+		t.files[t.name+"/plugins/conv/c.go"] = "package conv\n\nfunc Other(d interface{}, s interface{}, n int) {}\n"
 	}
 }
 
@@ -848,3 +856,5 @@ func famSlices(t *tgen) {
 	t.files[t.name+"/setup.go"] = sb.String()
 	t.files[t.name+"/types.go"] = ty.String()
 }
+
+func newRand(seed int64, idx int) *rand.Rand { return rand.New(rand.NewSource(seed*15485863 + int64(idx)*101)) }
